@@ -4,6 +4,8 @@ package main
 // denotation (Mxj.Model.Path, Mxj.Model.Denote).
 
 import (
+	"strconv"
+	"regexp"
 	"fmt"
 	"strings"
 
@@ -85,6 +87,11 @@ func c07Exec(op string) string {
 			return "ok f | " + note
 		}
 		vs, err := mxj.Map(m).ValuesForPath(path, subs...)
+		// k[i] as the last step selects the i-th of the values k alone would yield (also for keys
+		// the model does not cover, e.g. keys that are not valid UTF-8)
+		if note := lastIndexNote(m, path, subs, vs, err); note != "" {
+			return showRes(vs, err) + " | " + note
+		}
 		return showRes(vs, err)
 	case "vfp1":
 		m := c.mapVal()
@@ -127,6 +134,62 @@ func c07Exec(op string) string {
 	return "bad-op"
 }
 
+var lastIdxRe = regexp.MustCompile(`^(.*)\[(\d+)\]$`)
+
+func hasListInList(v interface{}, inList bool) bool {
+	switch x := v.(type) {
+	case map[string]interface{}:
+		for _, e := range x {
+			if hasListInList(e, false) {
+				return true
+			}
+		}
+	case []interface{}:
+		if inList {
+			return true
+		}
+		for _, e := range x {
+			if hasListInList(e, true) {
+				return true
+			}
+		}
+	}
+	return false
+}
+
+func lastIndexNote(m map[string]interface{}, path string, subs []string, vs []interface{}, err error) string {
+	mm := lastIdxRe.FindStringSubmatch(path)
+	if mm == nil || len(subs) > 0 || err != nil || strings.Contains(mm[1], "[") || strings.Contains(path, "*") || hasListInList(m, false) {
+		return ""
+	}
+	if last := mm[1][strings.LastIndex(mm[1], ".")+1:]; last == "" {
+		return ""
+	}
+	// (the index applies per parent: the oracle is used where there is exactly one parent)
+	if j := strings.LastIndex(mm[1], "."); j >= 0 {
+		parents, perr := mxj.Map(m).ValuesForPath(mm[1][:j])
+		if perr != nil || len(parents) != 1 {
+			return ""
+		}
+		if _, isMap := parents[0].(map[string]interface{}); !isMap {
+			return ""
+		}
+	}
+	base, berr := mxj.Map(m).ValuesForPath(mm[1])
+	if berr != nil {
+		return ""
+	}
+	i, _ := strconv.Atoi(mm[2])
+	var want []interface{}
+	if i < len(base) {
+		want = []interface{}{base[i]}
+	}
+	if enc(want) != enc(vs) && !(len(want) == 0 && len(vs) == 0) {
+		return fmt.Sprintf("LASTINDEX %q yields %s but the %d-th of the values of %q is %s", path, clip(enc(vs), 150), i, mm[1], clip(enc(want), 150))
+	}
+	return ""
+}
+
 func c07Describe(op string) string {
 	c, name := newCur(op)
 	switch name {
@@ -156,7 +219,19 @@ func c07Judge(op, impl, model string) Verdict {
 	if strings.HasPrefix(model, "skip-") {
 		v.Skipped = true
 		v.CorrOK = true
+		// implementation-only oracles still count
+		if ipx := splitModel(impl); name == "vfp" && len(ipx) > 1 && strings.HasPrefix(ipx[len(ipx)-1], "LASTINDEX") {
+			v.OracleFail = ipx[len(ipx)-1]
+			v.Sig = "vfp:lastindex"
+		}
 		return v
+	}
+	if name == "vfp" {
+		if ipx := splitModel(impl); len(ipx) > 1 && strings.HasPrefix(ipx[len(ipx)-1], "LASTINDEX") {
+			v.OracleFail = ipx[len(ipx)-1]
+			v.Sig = "vfp:lastindex"
+			impl = strings.Join(ipx[:len(ipx)-1], " | ")
+		}
 	}
 	switch name {
 	case "vfp":
@@ -303,6 +378,16 @@ func c07Gen(r *Rng, n int) []string {
 			}
 			m = map[string]interface{}{"doc": map[string]interface{}{"item": items}}
 		}
+		if r.P(3) {
+			// a key that is not valid UTF-8 (Maps are built by programs, not only by decoders)
+			for _, k := range sortedKeys(m) {
+				if _, isList := m[k].([]interface{}); isList || r.P(30) {
+					m[r.Pick([]string{"caf\xe9", "\x80k", "a\xffb"})] = m[k]
+					delete(m, k)
+					break
+				}
+			}
+		}
 		for j := 0; j < 4; j++ {
 			path := r.DerivedPath(m, true, 5)
 			if lookAhead && r.P(80) {
@@ -346,6 +431,8 @@ func genSubkeys(r *Rng, m map[string]interface{}, sep string) []string {
 					cands = append(cands, [2]string{k, s})
 				case float64:
 					cands = append(cands, [2]string{k, fmt.Sprintf("%v", s) + sep + "num"})
+					// a condition on a number that is NOT the member but very close to it
+					cands = append(cands, [2]string{k, fmt.Sprintf("%v", s*(1+2e-12)+1e-15) + sep + r.Pick([]string{"num", "float", "number"})})
 				case bool:
 					cands = append(cands, [2]string{k, fmt.Sprintf("%v", s) + sep + "bool"})
 				}
